@@ -93,6 +93,10 @@ func runC05CaseInner(cc c05Case, pb *panicBox) (string, string) {
 	copts := websocket.VerifCopts{Enabled: cc.Flate != 0, ClientNoContextTakeover: cc.Flate == 2, ServerNoContextTakeover: cc.Flate == 2}
 	c := websocket.VerifNewConn(&splitEnd{a, cc.Split}, cc.Client, copts, 64)
 	peer := newRawPeer(b, !cc.Client)
+	// two goroutines write for the peer (its messages; its pongs and Close echo): once the echo is out nothing may follow it —
+	// a reference peer that went on sending data frames after its own Close frame would not be a WebSocket peer, and the
+	// frames it sent there (say the second half of a later message) would be what a racing read then returns
+	peer.stopAfterClose = true
 	defer b.Close()
 	defer c.CloseNow()
 	bg, cancel := context.WithTimeout(context.Background(), 20*time.Second)
